@@ -166,6 +166,15 @@ impl Imager {
                 }
             }
         }
+        // nothing but LMDB's two files may live next to the data file
+        if let Some(envdir) = self.data.parent() {
+            if let Ok(rd) = std::fs::read_dir(envdir) {
+                let extra: Vec<String> = rd.filter_map(|e| e.ok()).map(|e| e.file_name().to_string_lossy().to_string()).filter(|n| n != "data.mdb" && n != "lock.mdb").collect();
+                if !extra.is_empty() {
+                    return Err(("side_channel_file".into(), format!("the environment directory holds {extra:?} besides LMDB's files")));
+                }
+            }
+        }
         let _ = std::fs::remove_dir_all(&self.image_dir);
         std::fs::create_dir_all(&self.image_dir).map_err(|e| ("harness".to_string(), e.to_string()))?;
         std::fs::copy(&self.data, self.image_dir.join("data.mdb")).map_err(|e| ("harness".to_string(), e.to_string()))?;
